@@ -574,6 +574,13 @@ func Build(spec *EpochSpec) (ep *Epoch, err error) {
 		sn := ipldbindcode.Subset{Kind: KindSubset, First: int(subsetFirst), Last: int(lastSlot), Blocks: curBlocks}
 		enc := encode(&sn, ipldbindcode.Prototypes.Subset)
 		c := cidOf(enc)
+		if spec.RootHash == 3 && len(subsetLinks) == 0 {
+			// long-header variant: the first subset is addressed by a sha2-512 CID, so that an Epoch node with two
+			// subsets is ~122 bytes and the identity root CID over it ~126 bytes (header body > 127 bytes, and the
+			// root still fits into the index file names)
+			sum, _ := mh.Sum(enc, mh.SHA2_512, -1)
+			c = cid.NewCidV1(cid.DagCBOR, sum)
+		}
 		b.add(KindSubset, c, enc)
 		subsetLinks = append(subsetLinks, link(c))
 		curBlocks = nil
@@ -645,6 +652,14 @@ func Build(spec *EpochSpec) (ep *Epoch, err error) {
 			tr = 40
 		}
 		sum, e := mh.Sum(enc, mh.SHA2_512, tr)
+		if e != nil {
+			panic(e)
+		}
+		root = cid.NewCidV1(cid.DagCBOR, sum)
+	case 3:
+		// identity multihash: the root CID inlines the Epoch node (two subsets, the first addressed by a sha2-512 CID), which makes the
+		// CAR header longer than 127 bytes, i.e. its length prefix two bytes wide
+		sum, e := mh.Sum(enc, mh.IDENTITY, -1)
 		if e != nil {
 			panic(e)
 		}
